@@ -103,6 +103,15 @@ theorem agg_count_depth_preserves {α : Type} (lo hi : Nat) (h : depthGuard lo h
 /-- without the guard (lower bound 0) the zero-length matches are lost -/
 theorem agg_count_depth_needs_guard : loweredDepths 0 1 (fun d => [d]) ≠ generalDepths 0 1 (fun d => [d]) := by decide
 
+/-! ### aggregate traversal count: the recognisers of the shape -/
+
+/-- the planner's recogniser of the final projection is, condition by condition, the analysed one (descending order on the count alias only,
+one or two plain items, LIMIT literal, no SKIP / DISTINCT): dropping or weakening a conjunct breaks this tie -/
+theorem agg_final_projection_tie : Generated.C02Guard.aggFinalProjection = aggFinalProjectionFacts := by decide +kernel
+
+/-- … and so is the recogniser of the source MATCH (single named node, NO inline property map, WHERE over the source only) -/
+theorem agg_source_match_tie : Generated.C02Guard.aggSourceMatch = aggSourceMatchFacts := by decide +kernel
+
 /-! ### limit pushdown: the tail WHERE must be transparent -/
 
 /-- the helper that decides `whereTransparent` is, condition by condition and return by return, the analysed one: a new early
